@@ -482,6 +482,11 @@ def attr_model(I, c):
     return St('Attribute', [deref(c.args[0]), deref(c.args[1])], ['key', 'value'])
 
 
+@model_re(r'^Attribute::new$')
+def attribute_new(I, c):
+    return St('Attribute', [deref(c.args[0]), deref(c.args[1])], ['key', 'value'])
+
+
 @model('coin', 'cosmwasm_std::coin')
 def coin_model(I, c):
     return coin_v(deref(c.args[1]), c.args[0])
